@@ -168,7 +168,9 @@ def dataset_graphs(draw, bnodes=True, max_graphs=4):
     subj = [["u", "http://ex.org/s1"], ["u", "http://ex.org/s2"]] + ([["b", "x"], ["b", "y"]] if bnodes else [["u", "urn:x"]])
     pred = [["u", "http://ex.org/p"], ["u", "http://ex.org/ns#q"]]
     obj = [["u", "http://ex.org/o"], ["l", "v", None, None], ["l", "", None, None], ["l", "0", None, gt.XSD + "integer"], ["l", "a\nb\"", "en", None],
-           ["l", "s", None, gt.XSD + "string"]] + ([["b", "x"], ["b", "z"]] if bnodes else [])
+           ["l", "s", None, gt.XSD + "string"],
+           # a datatype in the namespace of one of the predicates (for which no prefix is bound to begin with)
+           ["l", "w", None, "http://ex.org/ns#dt"]] + ([["b", "x"], ["b", "z"]] if bnodes else [])
     # literal spelling is C03's subject: doubles that the Turtle-family shorthand cannot render exactly (known finding of C03) are left out
     extra_obj = draw(st.lists(gt.literals(xml_safe=True).filter(lambda o: not _imprecise_double(o)), max_size=2))
     tri = st.tuples(st.sampled_from(subj), st.sampled_from(pred), st.sampled_from(obj + extra_obj)).map(list)
